@@ -4,6 +4,7 @@ import (
 	"bytes"
 	"encoding/hex"
 	"fmt"
+	"io"
 	"math"
 	"math/bits"
 	"math/rand"
@@ -157,9 +158,11 @@ func gorDecode(b []byte) string {
 			break
 		}
 	}
-	st := "/eof"
-	if it.Err() != nil {
-		st = "/err"
+	// "/eof" = the finish marker was read; "/err" = the stream ran out or was invalid (Err() reports
+	// nil for both because short reads wrap io.EOF — the raw error is exposed by the verif overlay)
+	st := "/err"
+	if it.VerifRawErr() == io.EOF {
+		st = "/eof"
 	}
 	return strings.Join(parts, ",") + st
 }
